@@ -49,7 +49,17 @@ def _canonical(tree: ast.AST) -> ast.AST:
                 return ast.copy_location(new, node)
             return node
 
-    return ast.fix_missing_locations(T().visit(tree))
+    tree = T().visit(tree)
+    # a `pass` next to other statements is nothing: blocks are compared without it (so `else: if …: …; pass` is
+    # still an elif link and two statements separated by a `pass` are still adjacent)
+    for node in ast.walk(tree):
+        for fld in ("body", "orelse", "finalbody"):
+            blk = getattr(node, fld, None)
+            if isinstance(blk, list) and len(blk) > 1 and any(isinstance(x, ast.Pass) for x in blk):
+                kept = [x for x in blk if not isinstance(x, ast.Pass)]
+                if kept:
+                    setattr(node, fld, kept)
+    return ast.fix_missing_locations(tree)
 
 
 @dataclass
